@@ -125,7 +125,7 @@ static void observe(RimeApi* api, RimeSessionId sid, const std::string& ret) {
     << (st.is_disabled ? 1 : 0);
   api->free_context(&c);
   api->free_status(&st);
-  std::cout << o.str() << "\n";
+  std::cout << o.str() << std::endl;
 }
 
 int main(int argc, char** argv) {
@@ -166,7 +166,7 @@ int main(int argc, char** argv) {
       api->get_status(sid, &st);
       bool match = ok && st.schema_id && id == st.schema_id;
       api->free_status(&st);
-      std::cout << "== " << id << (match ? "" : " FAIL") << "\n";
+      std::cout << "== " << id << (match ? "" : " FAIL") << std::endl;
       continue;
     }
     if (!sid) continue;
